@@ -139,6 +139,18 @@ func generate(r *hx.Run, pki *dialx.PKI) []dialx.Case {
 						out = append(out, c)
 					}
 				}
+				// refused dial attempts: without a fallback port the call fails at once; with one, the second attempt
+				// succeeds (or is refused too) and the dialogue -- here with a silent server -- runs on that connection
+				if !m.ssl && k == "dial" {
+					for _, fr := range [][2]int{{0, 1}, {1, 1}, {1, 2}} {
+						c := base
+						c.Fallback, c.Refuse = fr[0] == 1, fr[1]
+						out = append(out, c)
+						c2 := c
+						c2.Script = []string{"ok", "stall"}
+						out = append(out, c2)
+					}
+				}
 				// silence inside the TLS handshake
 				if m.pol != "N" || m.ssl {
 					c := base
